@@ -122,6 +122,9 @@ FAULT_TYPES = {
     "KeyError": KeyError,
     "IndexError": IndexError,
     "AssertionError": AssertionError,
+    # instances of the root classes themselves (every ``except <Type>`` clause of a library matches them)
+    "Exception": Exception,
+    "BaseException": BaseException,
 }
 
 
